@@ -231,15 +231,18 @@ func (llb *Buffer) WriteTo(w io.Writer) (n int64, err error) {
 			panic("Buffer.WriteTo: invalid Write count")
 		}
 		n += int64(m)
-		if err != nil {
-			return
-		}
 		if m < b.len() {
 			b.buf = b.buf[m:]
 			llb.pushFront(b)
-			return n, io.ErrShortWrite
+			if err == nil {
+				err = io.ErrShortWrite
+			}
+			return
 		}
 		bsPool.Put(b.buf)
+		if err != nil {
+			return
+		}
 	}
 	return
 }
